@@ -136,6 +136,7 @@ func (d *driver) minimise(sc *sim.Scenario) *sim.Scenario {
 				}
 				c := cloneScenario(cur)
 				c.World.Config = string(b)
+				pruneRefs(c)
 				if v := try(c); v != nil {
 					c.Violation = v
 					cur = c
@@ -214,6 +215,26 @@ func protectedPath(prop string, path []any) bool {
 		return true
 	}
 	return false
+}
+
+// pruneRefs drops the references (files a configuration consumes, used to
+// enumerate "this file is missing / unreadable" faults) that a shrunk
+// configuration no longer mentions: a fault on a file nobody reads is no fault.
+func pruneRefs(sc *sim.Scenario) {
+	var keep []sim.Ref
+	for _, rf := range sc.World.Refs {
+		if strings.Contains(sc.World.Config, "@SRC@"+rf.Path) {
+			keep = append(keep, rf)
+		}
+	}
+	sc.World.Refs = keep
+	var signed []string
+	for _, f := range sc.World.Signed {
+		if strings.Contains(sc.World.Config, "key_file") {
+			signed = append(signed, f)
+		}
+	}
+	sc.World.Signed = signed
 }
 
 func mentions(sc *sim.Scenario, path string) bool {
